@@ -1,6 +1,7 @@
 import ZV.Proofs.C02
 import ZV.Proofs.C02Names
 import ZV.Proofs.C02Views
+import ZV.Proofs.C02Cert
 import ZV.Props.C09
 import Mathlib.Data.Nat.Bitwise
 /-!
@@ -217,10 +218,27 @@ theorem keyUsage_value (k : Nat) : (keyUsageView k).2 < 4294967296 ∧ (k < 4294
   unfold keyUsageView
   exact ⟨Nat.mod_lt _ (by decide), fun h => Nat.mod_eq_of_lt h⟩
 
+/-- T1, whole generated table: `total_key_algorithms` does not exceed `len(keyAlgorithmNames)` and entry 0 (the
+    clamp target) exists. Editing the table or the enumeration in zcrypto re-checks THIS theorem. -/
+theorem keyAlgTable_covers : KeyAlgTableCovers := by
+  unfold KeyAlgTableCovers
+  decide
+
 /-- `PublicKeyAlgorithm.String` never indexes `keyAlgorithmNames` out of range, for every integer value -/
 theorem keyAlgName_no_panic (p : Int) : keyAlgName p ≠ .panic := by
-  obtain ⟨s, h⟩ := keyAlgName_ok p
+  obtain ⟨s, h⟩ := keyAlgName_ok keyAlgTable_covers p
   simp [h]
+
+/-- T1, whole generated table: every signature algorithm of the enumeration (1 … len-1) has a non-empty name, so
+    `String()` never prints an empty name, and the table is not empty (entry 0 = unknown) -/
+theorem algoName_table_named : 0 < Gen.algoName.length ∧ ∀ s ∈ Gen.algoName.drop 1, s.length ≠ 0 := by
+  decide
+
+/-- T1: the else-if chain of `JsonifyExtensions` tests sixteen pairwise different OIDs (no branch is dead), one per
+    variable named in the source -/
+theorem knownExtOids_table : Gen.knownExtOids.Nodup ∧ Gen.knownExtOids.length = 16 ∧
+    Gen.knownExtOidVars.length = Gen.knownExtOids.length ∧ ∀ o ∈ Gen.knownExtOids, 2 ≤ o.length := by
+  decide
 
 /-- `SignatureAlgorithm.String` and the name of `jsonifySignatureAlgorithm` never index `algoName` out of range -/
 theorem sigAlgName_no_panic (a : Int) : sigAlgString a ≠ .panic ∧ sigAlgJSONName a ≠ .panic := by
@@ -260,6 +278,70 @@ theorem basicConstraints_pathlen_iff (isCA : Bool) (n : Int) (z : Bool) :
     ((basicConstraintsView isCA n z).2 = none ↔ ¬ (n > 0 ∨ z = true)) := by
   unfold basicConstraintsView
   by_cases h : n > 0 ∨ z = true <;> simp [h]
+
+
+/-! ### computed certificate-level fields (model `ZV.Model.C02Cert`, T2 `cf` / `rk`)
+
+  All of these are total functions of the parsed value (no index, no partial operation), so totality and purity
+  hold by construction; the theorems say what the values are. -/
+
+/-- `Certificate.ValidityPeriod` (time.Time.Sub saturates) is the exact difference up to ±9223372036 s (≈ 292 years)
+    and is clamped to that bound beyond it -/
+theorem validityPeriod_exact_iff (nb na : Int) :
+    (validityLength nb na = na - nb ↔ (-9223372036 ≤ na - nb ∧ na - nb ≤ 9223372036)) ∧
+    -9223372036 ≤ validityLength nb na ∧ validityLength nb na ≤ 9223372036 := by
+  unfold validityLength
+  simp only
+  split
+  · omega
+  · split <;> omega
+
+/-- the `length` of the JSON view (computed by the promoted `(*validity).MarshalJSON` from the Unix times) and the
+    parser's `ValidityPeriod` agree exactly on validities of at most ≈ 292 years -/
+theorem validity_json_agrees_iff (nb na : Int) :
+    validityLengthJSON nb na = validityLength nb na ↔ (-9223372036 ≤ na - nb ∧ na - nb ≤ 9223372036) := by
+  have := (validityPeriod_exact_iff nb na).1
+  unfold validityLengthJSON
+  constructor
+  · intro h; exact this.mp h.symm
+  · intro h; exact (this.mpr h).symm
+
+/-- OBSERVATION (replayed on the Go code by the `cf` boundary lines): for 1970-01-01 … 2262-04-11T23:47:17Z the JSON
+    says 9223372037 and `Certificate.ValidityPeriod` says 9223372036 — `JSONValidity.ValidityPeriod` is never emitted -/
+example : validityLengthJSON 0 9223372037 = 9223372037 ∧ validityLength 0 9223372037 = 9223372036 := by decide
+
+/-- swapping the two dates negates both lengths -/
+theorem validity_antisymm (nb na : Int) :
+    validityLength na nb = - validityLength nb na ∧ validityLengthJSON na nb = - validityLengthJSON nb na := by
+  unfold validityLength validityLengthJSON
+  simp only
+  constructor
+  · split <;> split <;> (try split) <;> (try split) <;> omega
+  · omega
+
+/-- `(*big.Int).Bytes` as used for the RSA modulus: big-endian, no leading zero, and reads back to the magnitude -/
+theorem rsaKeyView_modulus (n e : Int) :
+    natOfBytes (rsaKeyView n e).1 = n.natAbs ∧ (rsaKeyView n e).1.head? ≠ some 0 ∧
+    (rsaKeyView n e).2.2 = 8 * (rsaKeyView n e).1.length ∧ (rsaKeyView n e).2.1 = e := by
+  unfold rsaKeyView
+  exact ⟨natOfBytes_beBytes _, beBytes_head_ne_zero _, by simp [Nat.mul_comm], rfl⟩
+
+/-- the sign of the modulus is lost in the view (permissive parsing lets negative moduli through) -/
+theorem rsaKeyView_sign_lost (n e : Int) : (rsaKeyView (-n) e).1 = (rsaKeyView n e).1 := by
+  unfold rsaKeyView; simp
+
+/-- the fingerprints have the digest lengths (16 / 20 / 32 bytes) for every certificate, and depend on nothing but
+    the raw pieces -/
+theorem fingerprints_lengths (raw tbs spki subject : Bytes) :
+    let f := fingerprints raw tbs spki subject
+    f.md5.length = 16 ∧ f.sha1.length = 20 ∧ f.sha256.length = 32 ∧ f.spki.length = 32 ∧ f.tbs.length = 32 ∧
+    f.spkiSubject.length = 32 := by
+  simp only [fingerprints]
+  exact ⟨ZV.C23.md5_length _, ZV.C23.sha1_length _, ZV.C23.sha256_length _, ZV.C23.sha256_length _,
+    ZV.C23.sha256_length _, ZV.C23.sha256_length _⟩
+
+-- FULL (not proved here): `intOfBytes (x :: rest) < 0 ↔ x.toNat ≥ 128` (sign of the serial number); the serial string is
+-- only compared with the Go code by T2 `cf`.
 
 /-! ### hostname verification (model and theorems of C09: `ZV.Model.C09`, T2 `c09 vh` / `mh` / `low` and `c02 vh`)
 
